@@ -68,8 +68,8 @@ def oracle(d, cfg, rows):
                         if tokv in r:
                             first = i if first is None else min(first, i)
                             last = i if last is None else max(last, i)
-            name_rows = header_rows(sec, rows, search_from)
-            if sec["kind"] == "bin" and not name_rows:
+            name_rows = header_rows(sec, rows, search_from) if sec["kind"] != "bin2" else []
+            if sec["kind"] in ("bin", "bin2", "binadd") and not name_rows:
                 name_rows = [i for i, r in enumerate(rows) if i >= search_from and r.startswith("Binary files ")]
             if not name_rows:
                 why.append(f"no header row for section {sec['kind']} {sec['old']} -> {sec['new']} from row {search_from}")
@@ -99,6 +99,8 @@ def header_text(sec):
         return f"copied: {sec['old']} {gdiff.ARROW} {sec['new']}"
     if k == "bin":
         return sec["new"] + " (binary file)"
+    if k == "binadd":
+        return "added: " + sec["new"] + " (binary file)"
     return sec["new"]
 
 
